@@ -62,8 +62,8 @@ const VISIBLE: &[u32] = &[
     site::SHM_GEN_LOAD,
 ];
 
-const VERSION: u32 = 1;
-const PLAINTEXT: &[u8] = b"afc-shm-conformance";
+pub const VERSION: u32 = 1;
+pub const PLAINTEXT: &[u8] = b"afc-shm-conformance";
 
 fn label_site(l: &str) -> Option<u32> {
     Some(match l {
@@ -158,6 +158,9 @@ pub struct Event {
 
 impl Event {
     pub fn to_json(&self) -> Value {
+        if self.what == "drop" {
+            return json!({"ev": "drop", "th": self.thread, "clock": self.clock});
+        }
         json!({"ev": if self.ret { "ret" } else { "inv" }, "th": self.thread, "what": self.what, "id": self.id,
                "res": self.res, "seq": self.seq, "targets": self.targets, "clock": self.clock})
     }
@@ -183,6 +186,14 @@ pub struct Monitor {
     pub fail: Option<Fail>,
     /// report only failures of this property ("" = all): each check decides its own property
     pub only: String,
+    /// memory::State: one live seal context per channel, numbering continues per channel
+    pub single: bool,
+    pub live: BTreeSet<u64>,
+    pub chan_seq: BTreeMap<u64, u64>,
+    /// per reader: the channel of its live context (memory mode)
+    pub holds: BTreeMap<usize, u64>,
+    /// per reader with a setup in progress: (channel, a context for it was live during the call)
+    pub pending_setup: BTreeMap<usize, (u64, bool)>,
 }
 
 impl Monitor {
@@ -200,7 +211,7 @@ impl Monitor {
                     "add" => {
                         let mut t = self.table.clone();
                         // the id is not known yet; `table_next` is completed at return
-                        if t.len() < self.cap {
+                        if self.cap == 0 || t.len() < self.cap {
                             t.insert(u64::MAX);
                         }
                         self.table_next = Some(t);
@@ -215,7 +226,7 @@ impl Monitor {
             } else {
                 match (e.what.as_str(), e.res.as_str()) {
                     ("add", "ok") => {
-                        if self.table.len() >= self.cap {
+                        if self.cap != 0 && self.table.len() >= self.cap {
                             self.flag("C42:add-on-full", format!("add returned id {} although the table was full ({:?})", e.id, self.table));
                         }
                         if let Some(l) = self.last_id {
@@ -231,7 +242,7 @@ impl Monitor {
                         self.table.insert(e.id);
                     }
                     ("add", "oos") => {
-                        if self.table.len() < self.cap {
+                        if self.cap == 0 || self.table.len() < self.cap {
                             self.flag("C42:oos-not-full", format!("add returned OutOfSpace with {} of {} channels", self.table.len(), self.cap));
                         }
                     }
@@ -246,10 +257,16 @@ impl Monitor {
                 }
                 self.table_next = None;
             }
+        } else if e.what == "drop" {
+            if let Some(id) = self.holds.remove(&e.thread) {
+                self.live.remove(&id);
+            }
         } else if !e.ret {
             self.after.insert(e.thread, self.removed_done.contains(&e.id));
             if e.what == "setup" {
-                self.next_seq.insert(e.thread, 0);
+                let start = if self.single { self.chan_seq.get(&e.id).copied().unwrap_or(0) } else { 0 };
+                self.next_seq.insert(e.thread, start);
+                self.pending_setup.insert(e.thread, (e.id, self.live.contains(&e.id)));
             }
         } else {
             let after = self.after.get(&e.thread).copied().unwrap_or(false);
@@ -260,7 +277,26 @@ impl Monitor {
                     format!("reader {} {} on channel {} found the channel although its removal had returned before the call was invoked", e.thread, e.what, e.id),
                 );
             }
-            if e.res == "notfound" && !self.removal_started.contains(&e.id) {
+            if self.single && e.what == "setup" && e.res == "ok" {
+                if self.live.contains(&e.id) {
+                    self.flag(
+                        "C40:second-live-context",
+                        format!("reader {} got a seal context for channel {} while another context for it is live", e.thread, e.id),
+                    );
+                }
+                self.live.insert(e.id);
+                self.holds.insert(e.thread, e.id);
+                for (_, p) in self.pending_setup.iter_mut() {
+                    if p.0 == e.id {
+                        p.1 = true;
+                    }
+                }
+                let start = self.chan_seq.get(&e.id).copied().unwrap_or(0);
+                self.next_seq.insert(e.thread, start);
+            }
+            let saw_live = if e.what == "setup" { self.pending_setup.remove(&e.thread).is_some_and(|p| p.1) } else { false };
+            let refused = self.single && e.what == "setup" && (self.live.contains(&e.id) || saw_live);
+            if e.res == "notfound" && !self.removal_started.contains(&e.id) && !refused {
                 self.flag(
                     "C41:lost-channel",
                     format!("reader {} {} on channel {} returned NotFound although no removal of it was ever invoked", e.thread, e.what, e.id),
@@ -275,6 +311,7 @@ impl Monitor {
                     );
                 }
                 self.next_seq.insert(e.thread, (e.seq.max(0) as u64) + 1);
+                self.chan_seq.insert(e.id, (e.seq.max(0) as u64) + 1);
             }
             if e.res.starts_with("err:") {
                 self.flag("C41:call-error", format!("reader {} {} on channel {} failed with {}", e.thread, e.what, e.id, e.res));
@@ -323,7 +360,8 @@ impl Monitor {
             self.flag("C42:bad-offset", "read_off/write_off is not the offset of a list".into());
         }
         if self.writer_idle() {
-            if a != b || s.side_a.generation != s.side_b.generation || s.read_is_a == s.write_is_a {
+            // (equal generations are part of the spec comparison — drift —, not of the property)
+            if a != b || s.read_is_a == s.write_is_a {
                 self.flag(
                     "C42:sides-differ",
                     format!(
@@ -356,7 +394,7 @@ pub struct Shared {
     pub wres: Vec<String>,
 }
 
-fn ev(sh: &Arc<Mutex<Shared>>, thread: usize, ret: bool, what: &str, id: u64, res: &str, seq: i64, targets: Vec<u64>) {
+pub fn ev(sh: &Arc<Mutex<Shared>>, thread: usize, ret: bool, what: &str, id: u64, res: &str, seq: i64, targets: Vec<u64>) {
     let e = Event { clock: vsched::current_clock(), thread, ret, what: what.to_string(), id, res: res.to_string(), seq, targets };
     sh.lock().unwrap().mon.event(e);
 }
@@ -383,7 +421,7 @@ impl Drop for ShmPath {
     }
 }
 
-fn err_class(e: &Error) -> String {
+pub fn err_class(e: &Error) -> String {
     match e {
         Error::NotFound(_) => "notfound".into(),
         Error::KeyExpired => "expired".into(),
